@@ -108,9 +108,34 @@ def job(j):
                 genrun.add_viol(st["viol"], ({"kind": "default-cell", "type": ty, "refused_expected": rec["refused"], "first": mm[0][:100]},
                                    {"cell": rec, "query": q, "variables": repr(variables), "mismatches": mm, "response": repr(resp)[:1500]}))
 
+    def guarded_input_cells(w):
+        """a variable of an input type whose field carries a directive that raises (a plain exception) for one value: that value
+        refuses the request - query and subscription alike, the source stream is not started - any other value is delivered"""
+        for q, sub in (("query ($a: Ing) { eg(a: $a) }", False), ("subscription ($a: Ing) { ug(a: $a) }", True)):
+            for val, bad in (({"v": 13}, True), ({"v": 12}, False), ({"v": 13, "w": 1}, True), ({}, False)):
+                if "[Ing!]" in q:
+                    val = [{"v": 1}, val]
+                st["n"] += 1
+                variables = {"a": val, "zz": 7}
+                resp = w.run_sub(q, variables) if sub else w.run(q, variables)
+                if bad:
+                    mm = refused_ok(resp, w)
+                else:
+                    ok = isinstance(resp, dict) and not resp.get("errors") and "__raised__" not in resp
+                    if ok and "[Ing!]" not in q:
+                        exp = {"a": dict({"w": 2}, **val)}
+                        seen = [c[2] for c in w.calls]
+                        ok = bool(seen) and all(render.strict_eq(dict(sorted(x.get("a", {}).items())), dict(sorted(exp["a"].items()))) for x in seen)
+                    mm = [] if ok else ["guarded input field: value %r: %r / calls %r" % (val, resp, w.calls)]
+                if mm:
+                    genrun.add_viol(st["viol"], ({"kind": "var-cell", "type": "Ing", "refused_expected": bad, "first": ("guarded input field (%s): " % ("subscription" if sub else "query")) + mm[0][:90]},
+                                       {"query": q, "variables": repr(variables), "mismatches": mm, "response": repr(resp)[:1500]}))
+
     def on_line(rec):
         if rec["kind"] == "itypes":
             st["w"] = inputworld.InputWorld(rec)
+            if cfg.endswith("vars_0.cfg"):
+                guarded_input_cells(st["w"])
             return
         w = st["w"]
         if rec["kind"] == "paircell":
